@@ -1,3 +1,4 @@
+mod canary;
 mod ctx;
 mod gen;
 mod ops;
@@ -8,6 +9,7 @@ mod props_b;
 mod props_c;
 mod props_long;
 mod proto;
+mod purity;
 mod rng;
 mod tables;
 
@@ -93,6 +95,8 @@ fn run_prop_inner(ctx: &mut Ctx) -> bool {
         "C20" => props_b::c20(ctx),
         _ => return false,
     }
+    ctx.canary_check("the whole stream of this property");
+    purity::purity_stream(ctx);
     ctx.flush();
     true
 }
